@@ -29,6 +29,6 @@ For each defect X in (A, B) write, inside {wt}/MUTANT/:
   - X.notes.md   : 5-10 lines: what was changed, which clause of the property it breaks, what exactly is needed for it to manifest, and the commands you ran (test-suite result with the patch, demo result with and without the patch).
 Procedure per defect: start from a clean checkout (`git -C {wt} checkout -- .`; the MUTANT directory is untracked and stays), make the change, run the test-suite, run the demo (must fail), save `git diff > MUTANT/X.patch.diff`, revert with `git checkout -- .`, run the demo again (must pass). Leave the checkout clean (reverted) at the end, with only the MUTANT/ directory added. Before finishing, double-check both patches apply cleanly with `git apply --check`.
 
-Some library behaviours are ALREADY broken on the unchanged checkout (do not build on these; your demo must pass on the unchanged checkout): coefficient dtypes other than bool/uint32/int64/float64/complex128 are mishandled; multivariate polynomial division can loop forever (e.g. dividing by q0+q1) — only use univariate or monomial divisors if you touch division; evaluation `p(-1)` with negative Python ints overflows; `derivative` fails under retain_coefficients=True; products with exponents >= 69 raise UnicodeDecodeError; array `**` with 3-d broadcasting gives wrong shapes; det of 1x1 is 0; amax/amin with axis are wrong; savetxt/loadtxt fail for 0-d, size-1 and single-term polynomials.
+Some library behaviours are ALREADY broken on the unchanged checkout (do not build on these; your demo must pass on the unchanged checkout): multiplication/arithmetic between coefficient dtypes other than bool/uint32/int64/float64/complex128 is mishandled; multivariate polynomial division can loop forever (e.g. dividing by q0+q1) — only use univariate or monomial divisors if you touch division; evaluation `p(-1)` with negative Python ints overflows; `derivative` fails under retain_coefficients=True; products with exponents >= 69 raise UnicodeDecodeError; matmul with 1-d operands does not follow numpy; size-0 (empty) arrays lose their shape; amax/amin with axis are wrong; savetxt/loadtxt fail for 0-d, size-1 and single-term polynomials.
 
 Final answer: a short report listing, for A and B: the files changed, a one-sentence description, what is needed to trigger it, and confirmation of the test-suite and demo results.""")
